@@ -627,8 +627,7 @@ Section Fll.
   End Normal.
 
   (* ---------------------------------------------------------------------------------------------- well-formedness *)
-  (* a value that survives `strip_comments`, `strip` and `split("
-")`: no "#", no newline, no outer whitespace *)
+  (* a value that survives `strip_comments`, `strip` and splitting at newlines: no "#", no newline, no outer whitespace *)
   Definition value_ok (v : string) : bool :=
     str_forall (fun c => negb (is_hash c) && negb (is_nl c)) v && String.eqb (strip v) v.
   (* an identifier name (Op.as_identifier leaves it unchanged) *)
@@ -672,7 +671,8 @@ Section Fll.
     Definition rep_term (t : fll_term) : Prop :=
       match t with
       | FShape _ c ps h =>
-          Forall rep_num ps /          match lookup_term c with Some r => if row_height r then rep_h h else h = n_one | None => rep_h h end
+          Forall rep_num ps /\
+          match lookup_term c with Some r => if row_height r then rep_h h else h = n_one | None => rep_h h end
       | FDiscrete _ xy h => Forall (fun p => rep_num (fst p) /\ rep_num (snd p)) xy /\ rep_h h
       | FLinear _ cs h => Forall rep_num cs /\ h = n_one
       | FFunction _ _ h => h = n_one
@@ -704,3 +704,123 @@ Section Fll.
       /\ Forall (fun b => Forall (fun r => stable_h (fr_weight r)) (fb_rules b)) (fe_blocks e).
   End Representable.
 End Fll.
+
+(* ------------------------------------------------------------------------------------------------ decidable equality *)
+Section FllEq.
+  Variable num : Type.
+  Variable num_eqb : num -> num -> bool.
+  Definition pair_eqb (a b : num * num) : bool := num_eqb (fst a) (fst b) && num_eqb (snd a) (snd b).
+  Definition term_eqb (a b : fll_term num) : bool :=
+    match a, b with
+    | FShape n c ps h, FShape n' c' ps' h' => String.eqb n n' && String.eqb c c' && list_eqb num_eqb ps ps' && num_eqb h h'
+    | FDiscrete n xy h, FDiscrete n' xy' h' => String.eqb n n' && list_eqb pair_eqb xy xy' && num_eqb h h'
+    | FLinear n cs h, FLinear n' cs' h' => String.eqb n n' && list_eqb num_eqb cs cs' && num_eqb h h'
+    | FFunction n f h, FFunction n' f' h' => String.eqb n n' && String.eqb f f' && num_eqb h h'
+    | _, _ => false
+    end.
+  Definition tnorm_eqb (a b : tnorm) : bool := String.eqb (tnorm_name a) (tnorm_name b).
+  Definition snorm_eqb (a b : snorm) : bool := String.eqb (snorm_name a) (snorm_name b).
+  Definition defuzzifier_eqb (a b : fll_defuzzifier) : bool :=
+    match a, b with
+    | FDIntegral k r, FDIntegral k' r' => String.eqb (integral_name k) (integral_name k') && Z.eqb r r'
+    | FDWeighted v t, FDWeighted v' t' => Bool.eqb v v' && String.eqb (wtype_name t) (wtype_name t')
+    | _, _ => false
+    end.
+  Definition activation_eqb (a b : activation num) : bool :=
+    match a, b with
+    | AGeneral, AGeneral | AProportional, AProportional => true
+    | AFirst n t, AFirst n' t' | ALast n t, ALast n' t' => Z.eqb n n' && num_eqb t t'
+    | AHighest n, AHighest n' | ALowest n, ALowest n' => Z.eqb n n'
+    | AThreshold c t, AThreshold c' t' => String.eqb (comparator_name c) (comparator_name c') && num_eqb t t'
+    | _, _ => false
+    end.
+  Definition input_eqb (a b : fll_input num) : bool :=
+    String.eqb (fi_name a) (fi_name b) && String.eqb (fi_description a) (fi_description b)
+    && Bool.eqb (fi_enabled a) (fi_enabled b) && num_eqb (fi_min a) (fi_min b) && num_eqb (fi_max a) (fi_max b)
+    && Bool.eqb (fi_lock_range a) (fi_lock_range b) && list_eqb term_eqb (fi_terms a) (fi_terms b).
+  Definition output_eqb (a b : fll_output num) : bool :=
+    String.eqb (fo_name a) (fo_name b) && String.eqb (fo_description a) (fo_description b)
+    && Bool.eqb (fo_enabled a) (fo_enabled b) && num_eqb (fo_min a) (fo_min b) && num_eqb (fo_max a) (fo_max b)
+    && Bool.eqb (fo_lock_range a) (fo_lock_range b)
+    && option_eqb snorm_eqb (fo_aggregation a) (fo_aggregation b)
+    && option_eqb defuzzifier_eqb (fo_defuzzifier a) (fo_defuzzifier b)
+    && num_eqb (fo_default a) (fo_default b) && Bool.eqb (fo_lock_previous a) (fo_lock_previous b)
+    && list_eqb term_eqb (fo_terms a) (fo_terms b).
+  Definition rule_eqb (a b : fll_rule num) : bool :=
+    Bool.eqb (fr_enabled a) (fr_enabled b) && list_eqb String.eqb (fr_antecedent a) (fr_antecedent b)
+    && list_eqb String.eqb (fr_consequent a) (fr_consequent b) && num_eqb (fr_weight a) (fr_weight b).
+  Definition block_eqb (a b : fll_block num) : bool :=
+    String.eqb (fb_name a) (fb_name b) && String.eqb (fb_description a) (fb_description b)
+    && Bool.eqb (fb_enabled a) (fb_enabled b)
+    && option_eqb tnorm_eqb (fb_conjunction a) (fb_conjunction b)
+    && option_eqb snorm_eqb (fb_disjunction a) (fb_disjunction b)
+    && option_eqb tnorm_eqb (fb_implication a) (fb_implication b)
+    && option_eqb activation_eqb (fb_activation a) (fb_activation b)
+    && list_eqb rule_eqb (fb_rules a) (fb_rules b).
+  Definition engine_eqb (a b : fll_engine num) : bool :=
+    String.eqb (fe_name a) (fe_name b) && String.eqb (fe_description a) (fe_description b)
+    && list_eqb input_eqb (fe_inputs a) (fe_inputs b) && list_eqb output_eqb (fe_outputs a) (fe_outputs b)
+    && list_eqb block_eqb (fe_blocks a) (fe_blocks b).
+  Definition result_engine_eqb (a b : result (fll_engine num)) : bool :=
+    match a, b with
+    | Ok x, Ok y => engine_eqb x y
+    | Err x, Err y => err_eqb x y
+    | _, _ => false
+    end.
+End FllEq.
+
+(* ------------------------------------------------------------------------------------------------ a concrete instance *)
+(* Numbers as the tokens the implementation prints ("0.500", "-inf", "nan"), over an alphabet that cannot contain
+   whitespace, "#" or ":", paired with the implementation's answer to Op.is_close(value, 1.0).  `fmt` is the identity on
+   tokens; the closeness of a token that is read back is looked up in a table recorded from the implementation. *)
+Inductive nchar : Set :=
+  | N0 | N1 | N2 | N3 | N4 | N5 | N6 | N7 | N8 | N9 | NDot | NMinus | Nn | Na | Ni | Nf.
+Definition char_of_nchar (c : nchar) : ascii :=
+  match c with
+  | N0 => "0" | N1 => "1" | N2 => "2" | N3 => "3" | N4 => "4" | N5 => "5" | N6 => "6" | N7 => "7" | N8 => "8" | N9 => "9"
+  | NDot => "." | NMinus => "-" | Nn => "n" | Na => "a" | Ni => "i" | Nf => "f"
+  end%char.
+Definition nchar_of_char (a : ascii) : option nchar :=
+  match a with
+  | "0" => Some N0 | "1" => Some N1 | "2" => Some N2 | "3" => Some N3 | "4" => Some N4 | "5" => Some N5 | "6" => Some N6
+  | "7" => Some N7 | "8" => Some N8 | "9" => Some N9 | "." => Some NDot | "-" => Some NMinus
+  | "n" => Some Nn | "a" => Some Na | "i" => Some Ni | "f" => Some Nf
+  | _ => None
+  end%char.
+Definition tok : Set := (nchar * list nchar)%type.
+Fixpoint string_of_nchars (l : list nchar) : string :=
+  match l with [] => EmptyString | c :: r => String (char_of_nchar c) (string_of_nchars r) end.
+Definition string_of_tok (t : tok) : string := String (char_of_nchar (fst t)) (string_of_nchars (snd t)).
+Fixpoint nchars_of_string (s : string) : option (list nchar) :=
+  match s with
+  | EmptyString => Some []
+  | String a s' => match nchar_of_char a, nchars_of_string s' with Some c, Some r => Some (c :: r) | _, _ => None end
+  end.
+Definition tok_of_string (s : string) : option tok :=
+  match nchars_of_string s with Some (c :: r) => Some (c, r) | _ => None end.
+Definition nchar_eqb (a b : nchar) : bool := Ascii.eqb (char_of_nchar a) (char_of_nchar b).
+
+Section TokNum.
+  Variable close_tbl : list string.     (* the tokens t of the text with Op.is_close(float(t), 1.0) *)
+  Definition tnum : Set := (tok * bool)%type.
+  Definition tn_fmt (d : nat) (x : tnum) : string := string_of_tok (fst x).
+  Definition tn_close_of (s : string) : bool := existsb (String.eqb s) close_tbl.
+  Definition tn_parse (s : string) : option tnum :=
+    match tok_of_string s with Some t => Some (t, tn_close_of s) | None => None end.
+  Definition tn_round (d : nat) (x : tnum) : tnum := (fst x, tn_close_of (string_of_tok (fst x))).
+  Definition tn_close1 (x : tnum) : bool := snd x.
+  Definition tn_eqb (a b : tnum) : bool :=
+    String.eqb (string_of_tok (fst a)) (string_of_tok (fst b)) && Bool.eqb (snd a) (snd b).
+End TokNum.
+(* a literal: the token text and the closeness bit; an ill-formed text gives the token "n" (never printed by Op.str) *)
+Definition TN (s : string) (close : bool) : tnum :=
+  match tok_of_string s with Some t => (t, close) | None => ((Nn, []), close) end.
+
+(* the model at the token instance: `one`, `zero` are the texts of 1.0 and 0.0 at the case's number of decimals *)
+Definition tn_export (d : nat) (e : fll_engine tnum) : list string := export tn_fmt tn_close1 d e.
+Definition tn_import (tbl : list string) (one zero : string) (lines : list string) : result (fll_engine tnum) :=
+  import_ (tn_parse tbl) (TN "nan" false) (TN "inf" false) (TN "-inf" false) (TN one true) (TN zero false) lines.
+Definition tn_normalize (tbl : list string) (one : string) (d : nat) (e : fll_engine tnum) : fll_engine tnum :=
+  normalize (tn_round tbl) tn_close1 (TN one true) d e.
+Definition tn_result_eqb : result (fll_engine tnum) -> result (fll_engine tnum) -> bool := result_engine_eqb tn_eqb.
+Definition lines_eqb : list string -> list string -> bool := list_eqb String.eqb.
